@@ -1,8 +1,82 @@
-(* C15 -- rename is behaviour-preserving and complete (statements; proofs in proofs/RenameProofs.v). *)
+(* C15 -- rename is behaviour-preserving and complete.
+   Model: model/SymGraph.v (symbols.rs: rename = edge relabelling, query_traversal_steps, query_steps_to_path),
+   model/Analysis.v (definitions and usages), model/Rename.v (lsp/rename.rs); vocabulary: spec/RenameSpec.v. *)
 From Coq Require Import List NArith Arith Bool.
 Import ListNotations.
-From Mos Require Import model.SymGraph model.Analysis model.Rename.
+From Mos Require Import model.SymGraph model.Analysis model.Rename spec.NavSpec spec.RenameSpec
+  proofs.SymGraphProofs proofs.NavProofs proofs.RenameProofs.
 
-Theorem C15_placeholder_model_loads : rename [] 0 0 [] = [].
-Proof. exact (eq_refl : rename [] 0 0 [] = []). Qed.
-Print Assumptions C15_placeholder_model_loads.
+(* The table after `rename` is the table before with relabelled edges: same edges, same order, same endpoints; the
+   label differs exactly on the edges parent -> symbol. *)
+Theorem C15_rename_is_relabelling : forall g p c new, relabelled g (rename g p c new) p c new.
+Proof. exact rename_relabelled. Qed.
+Print Assumptions C15_rename_is_relabelling.
+
+(* For ALL tables, scopes and paths (dotted, `super`, bubbling outward any number of scopes): if the new name is fresh,
+   every lookup that resolved before the rename resolves through exactly the same nodes afterwards -- same bubbling
+   steps, same Symbol steps, hence the same symbol and value -- once every identifier that crossed an edge
+   parent -> symbol is replaced by the new name (which is what the text edit does to the usages of the symbol).
+   In particular lookups that do not touch the symbol are unchanged (their path is not edited), and no lookup is
+   captured by an inner or outer scope. *)
+Theorem C15_rename_iso : forall g p c new, functional g -> fresh g new ->
+  forall fuel scope pth steps,
+    pth <> [] ->
+    query_traversal_steps fuel g scope pth = Some steps ->
+    symbols_of steps <> [] ->
+    query_traversal_steps fuel (rename g p c new) scope
+      (ren_path p c new (resolving_scope scope steps) (symbols_of steps) pth) = Some steps.
+Proof. exact rename_iso. Qed.
+Print Assumptions C15_rename_iso.
+
+(* the invariant `functional` is kept by a rename to a fresh name (so renames compose) *)
+Theorem C15_rename_keeps_functional : forall g p c new, functional g -> fresh g new -> functional (rename g p c new).
+Proof. exact rename_functional. Qed.
+Print Assumptions C15_rename_keeps_functional.
+
+(* The edit set: one edit per definition site / usage of the symbol found at the position, except usages written
+   `super` -- nothing else (comments, strings, equally named symbols of other scopes are no usages of it, C16). *)
+Theorem C15_edit_spans_are_usages : forall fuel g slice nx d new g' edits,
+  rename_symbol fuel g slice nx d new = RenEdits g' edits ->
+  map ed_span edits = map dl_span (filter (fun dl => negb (is_super_slice slice dl)) (definition_and_usages d)).
+Proof. exact rename_symbol_spans. Qed.
+Print Assumptions C15_edit_spans_are_usages.
+
+(* Renaming back restores the table and every edited path, under the exact guard that all edges parent -> symbol
+   carried the old name (no second name for the same symbol in that scope). *)
+Theorem C15_roundtrip : forall g p c new old,
+  is_super new = false -> functional g -> uniform g p c old ->
+  rename (rename g p c new) p c old = g /\
+  forall pth n l, walk g n pth = Some l -> ren_path p c old n l (ren_path p c new n l pth) = pth.
+Proof. exact roundtrip. Qed.
+Print Assumptions C15_roundtrip.
+
+(* F-C15a.  .import x as y from "b.asm" / lda y ; rename y -> zz: the argument `x as y` is replaced by the EMPTY
+   path, and x is renamed in b.asm. *)
+Theorem C15_import_alias_refuted :
+  exists g' edits, rename_handler 5 w_graph w_analysis w_slice 0 1 4 w_zz = RenEdits g' edits /\
+    In (mkEdit w_arg []) edits /\ In (mkEdit w_def_site [w_zz]) edits /\ In (mkEdit w_use [w_zz]) edits.
+Proof. exact import_alias_refuted. Qed.
+Print Assumptions C15_import_alias_refuted.
+
+(* Outside that class every edit writes exactly the new name (for all tables, usages through bubbling included). *)
+Theorem C15_edit_text_is_new_name : forall fuel g slice nx d new g' edits,
+  rename_symbol fuel g slice nx d new = RenEdits g' edits ->
+  Known_import_alias fuel g slice nx d = false ->
+  forall e, In e edits -> ed_text e = [new].
+Proof. exact edit_text_guarded. Qed.
+Print Assumptions C15_edit_text_is_new_name.
+
+(* the witness is inside the class, a plain program outside (non-vacuity of the guard) *)
+Example C15_witness_in_class :
+  Known_import_alias 5 w_graph w_slice 2 (mkDef (Some (mkLoc 1 w_def_site)) [mkLoc 0 w_use; mkLoc 0 w_arg]) = true.
+Proof. vm_compute. reflexivity. Qed.
+
+Example C15_plain_outside_class :
+  let foo := [102; 111; 111]%N in let sc := [36; 115]%N in
+  let g := [mkEdge 1 foo 2; mkEdge 0 sc 1] in
+  let slice := fun _ : Span => [foo] in
+  let d := mkDef (Some (mkLoc 1 (mkSpan 0 0 0 0 3))) [mkLoc 1 (mkSpan 0 2 4 2 7)] in
+  Known_import_alias 5 g slice 2 d = false /\
+  exists g', rename_symbol 5 g slice 2 d [122]%N =
+             RenEdits g' [mkEdit (mkSpan 0 0 0 0 3) [[122]%N]; mkEdit (mkSpan 0 2 4 2 7) [[122]%N]].
+Proof. vm_compute. split; [reflexivity|eexists; reflexivity]. Qed.
